@@ -9,24 +9,41 @@ use crate::rng::Rng;
 use crate::vals;
 
 // ---- referencing constructs ---------------------------------------------------------------------
-// (name, template with {} for the referenced program, absorbs-hard-errors, contributes value?)
-pub const CONSTRUCTS: [(&str, &str, bool); 12] = [
-    ("ident", "{}", false),
-    ("operand", "({} + 0)", false),
-    ("macro-range", "[{}].map(x, x)[0]", false),
-    ("macro-body", "[0].map(x, {})[0]", true),
-    ("call-arg", "int({})", false),
-    ("has", "(has({}) ? 0 : 1000) + {}", true),
-    ("coalesce", "coalesce({}, 1000)", true),
-    ("fstring", "int(f'{{}}')", false),
-    ("index", "[{}][0]", false),
-    ("map-value", "{'k': {}}.k", false),
-    ("ternary-arm", "(true ? {} : 1000)", false),
-    ("match-arm", "(match 1 { case 1: {}, case _: 1000 })", false),
+// (name, template with {} for the referenced program, turns-a-hard-failure-into-a-value,
+//  carries the target's value into the sum - otherwise it contributes 0)
+pub const CONSTRUCTS: [(&str, &str, bool, bool); 27] = [
+    ("ident", "{}", false, true),
+    ("operand", "({} + 0)", false, true),
+    ("macro-range", "[{}].map(x, x)[0]", false, true),
+    ("macro-body", "[0].map(x, {})[0]", true, true),
+    ("call-arg", "int({})", false, true),
+    ("has", "(has({}) ? 0 : 1000) + {}", true, true),
+    ("coalesce", "coalesce({}, 1000)", true, true),
+    ("fstring", "int(f'{{}}')", false, true),
+    ("index", "[{}][0]", false, true),
+    ("map-value", "{'k': {}}.k", false, true),
+    ("ternary-arm", "(true ? {} : 1000)", false, true),
+    ("match-arm", "(match 1 { case 1: {}, case _: 1000 })", false, true),
+    // every macro, on lists and on maps, with the reference in each of its code arguments
+    ("all-body", "([0].all(x, {} != -1) ? 0 : 1000)", true, false),
+    ("exists-body", "([0].exists(x, {} == -1) ? 1000 : 0)", true, false),
+    ("exists_one-body", "([0].exists_one(x, {} == -1) ? 1000 : 0)", true, false),
+    ("filter-body", "([0].filter(x, {} == -1) == [] ? 0 : 1000)", true, false),
+    ("map3-predicate", "([0].map(x, {} == -1, x) == [] ? 0 : 1000)", true, false),
+    ("map3-body", "[0].map(x, true, {})[0]", true, true),
+    ("reduce-step", "[0].reduce(acc, x, acc + {}, 0)", true, true),
+    ("reduce-seed", "[0].reduce(acc, x, acc, {})", true, true),
+    ("map-on-map-body", "{'k': 1}.map(x, {})[0]", true, true),
+    ("map3-on-map-predicate", "({'k': 1}.map(x, {} == -1, x) == [] ? 0 : 1000)", true, false),
+    ("filter-on-map-body", "({'k': 1}.filter(x, {} == -1) == [] ? 0 : 1000)", true, false),
+    ("match-scrutinee", "(match {} { case -1: 1000, case _: 0 })", false, false),
+    ("ternary-condition", "({} == -1 ? 1000 : 0)", false, false),
+    ("sort-element", "[{}].sort()[0]", false, true),
+    ("function-arg", "min({}, 100000)", false, true),
 ];
 
 fn reference(construct: usize, target: &str) -> String {
-    let (name, tpl, _) = CONSTRUCTS[construct];
+    let (name, tpl, _, _) = CONSTRUCTS[construct];
     if name == "fstring" {
         // f-strings convert through string(): int(f'{p}') round-trips an int
         return format!("int(f'{{{}}}')", target);
@@ -55,47 +72,61 @@ fn exec_on(ctxc: &CelContext, entry: &str, small_stack: bool) -> Out {
     }
 }
 
-fn graph_case(rep: &mut Rep, n: usize, adj: u32, constructs: &[usize], what: &str) {
+pub fn graph_case(rep: &mut Rep, n: usize, adj: u32, constructs: &[usize], what: &str) {
     // node i has an edge to j iff bit i*n+j of adj
     let edges = |i: usize| -> Vec<usize> { (0..n).filter(|j| adj & (1 << (i * n + j)) != 0).collect() };
-    // reachable from 0, cycle detection, model values
+    // cycle detection over the part reachable from the entry
     let mut state = vec![0u8; n]; // 0 new, 1 on stack, 2 done
-    let mut val = vec![0i64; n];
     let mut cyclic = false;
-    fn dfs(i: usize, edges: &dyn Fn(usize) -> Vec<usize>, state: &mut Vec<u8>, val: &mut Vec<i64>, cyclic: &mut bool, constructs: &[usize], n: usize) {
+    fn dfs(i: usize, edges: &dyn Fn(usize) -> Vec<usize>, state: &mut Vec<u8>, cyclic: &mut bool) {
         state[i] = 1;
-        let mut v = (i + 1) as i64;
         for j in edges(i) {
             if state[j] == 1 {
                 *cyclic = true;
-                continue;
+            } else if state[j] == 0 {
+                dfs(j, edges, state, cyclic);
             }
-            if state[j] == 0 {
-                dfs(j, edges, state, val, cyclic, constructs, n);
-            }
-            v += val[j];
         }
-        val[i] = v;
         state[i] = 2;
     }
-    dfs(0, &edges, &mut state, &mut val, &mut cyclic, constructs, n);
+    dfs(0, &edges, &mut state, &mut cyclic);
     let maxdeg = (0..n).map(|i| edges(i).len()).max().unwrap_or(0);
-    let mut c = CelContext::new();
-    let mut sources = Vec::new();
+    // the construct of every edge
+    let mut con_of = vec![vec![0usize; n]; n];
     for i in 0..n {
-        let mut src = format!("{}", i + 1);
         for (k, j) in edges(i).into_iter().enumerate() {
-            let mut con = constructs[(i * n + j + k) % constructs.len()];
+            let mut con = constructs[(i * n + j + k + adj as usize) % constructs.len()];
             // work budget: constructs that turn a failure into a value let evaluation go on after a
             // cycle was hit; with fan-out >= 2 that is exponential work, which is not what is judged here
             if cyclic && maxdeg >= 2 && CONSTRUCTS[con].2 {
                 con = 0;
             }
-            // `has` evaluates its target twice: fan-out doubles
-            if cyclic && maxdeg >= 2 && CONSTRUCTS[con].0 == "has" {
-                con = 1;
+            con_of[i][j] = con;
+        }
+    }
+    // model values of the acyclic case
+    let mut val: Vec<Option<i64>> = vec![None; n];
+    fn value(i: usize, edges: &dyn Fn(usize) -> Vec<usize>, con_of: &Vec<Vec<usize>>, val: &mut Vec<Option<i64>>) -> i64 {
+        if let Some(v) = val[i] {
+            return v;
+        }
+        let mut v = (i + 1) as i64;
+        for j in edges(i) {
+            let vj = value(j, edges, con_of, val);
+            if CONSTRUCTS[con_of[i][j]].3 {
+                v += vj;
             }
-            src.push_str(&format!(" + {}", reference(con, &format!("p{}", j))));
+        }
+        val[i] = Some(v);
+        v
+    }
+    let want = if cyclic { 0 } else { value(0, &edges, &con_of, &mut val) };
+    let mut c = CelContext::new();
+    let mut sources = Vec::new();
+    for i in 0..n {
+        let mut src = format!("{}", i + 1);
+        for j in edges(i) {
+            src.push_str(&format!(" + {}", reference(con_of[i][j], &format!("p{}", j))));
         }
         if let Err(e) = c.add_program_str(&format!("p{}", i), &src) {
             rep.viol("graph|compile", &format!("{} does not compile: {}", src, e), json!({"source": src}));
@@ -111,7 +142,7 @@ fn graph_case(rep: &mut Rep, n: usize, adj: u32, constructs: &[usize], what: &st
         let ok = match (&out, cyclic) {
             (Out::Panic(..), _) => false,
             (Out::Err(_), true) => true,
-            (Out::Val(v), false) => canon(v) == canon(&val[0].into()),
+            (Out::Val(v), false) => canon(v) == canon(&want.into()),
             _ => false,
         };
         if !ok {
@@ -124,7 +155,7 @@ fn graph_case(rep: &mut Rep, n: usize, adj: u32, constructs: &[usize], what: &st
             rep.viol(
                 &format!("graph|{}|{}", class, what),
                 &format!("programs {:?}: entry p0 gave {} ({}); expected {}", sources, out.show(), if small { "2 MiB thread" } else { "main thread" },
-                    if cyclic { "an error (reference cycle)".to_string() } else { format!("{}", val[0]) }),
+                    if cyclic { "an error (reference cycle)".to_string() } else { format!("{}", want) }),
                 json!({"programs": sources, "cyclic": cyclic}),
             );
         }
@@ -374,14 +405,14 @@ pub fn run(ctx: &mut Ctx) {
         }
         rep.mark(&format!("chain-{}", cname));
         // `has` references its target twice per link: 2^len work, keep it short
-        if cname == "has" && len > 16 {
+        if cname == "has" && len > 14 {
             return;
         }
         for small in [false, true] {
             let out = exec_on(&c, &format!("p{}", len), small);
             rep.eval();
             rep.count("chain_executions");
-            let want: CelValue = if fstr { "1".into() } else { ((len + 1) as i64).into() };
+            let want: CelValue = if fstr { "1".into() } else if CONSTRUCTS[con].3 { ((len + 1) as i64).into() } else { 1.into() };
             let ok = match &out {
                 Out::Panic(..) => false,
                 Out::Val(v) => canon(v) == canon(&want),
